@@ -67,7 +67,10 @@ class Operator(Token):
 
     def process(self, match, context=None):
         if self._re_process:
-            s = match.groups()[0].replace(self._replace, '')
+            s = match.groups()[0]
+            if regex.search(r'[<>=]\s+[<>=]', s):  # E.g., `=1< =2`.
+                return {}
+            s = s.replace(self._replace, '')
             match = self._re_process.match(s)
         if match:
             return super(Operator, self).process(match, context=context)
